@@ -89,6 +89,8 @@ def run(chk):
     chk.rule("R14.1", "encode/decode sequences of the hand-written codecs agree (shared with C14)")
     chk.rule("R14.2", "automaton serialize <-> deserialize_unchecked (shared with C14)")
     chk.floor("R14.1", "hand-written codec pairs", c14.pairs(chk, w), 7, other=5)
+    from . import c06 as _c06
+    _c06.r068(chk, w)
     inv = {}
     raw = []
     for bd in w.all_bodies():
